@@ -174,7 +174,7 @@ def cdf_items(tier):
   out = []
   for act in ("relu6", "sigmoid"):
     for red in ("mean", "none"):
-      for sp, d, units in ((1, 1, 1), (1, 2, 2), (2, 2, 2), (2, 4, 2), (1, 3, 3)):
+      for sp, d, units in ((1, 1, 1), (1, 2, 2), (2, 2, 2), (2, 4, 2), (1, 3, 3), (2, 2, 4), (2, 4, 4)):
         for scaling in ("fixed", "learned_shared", "learned_per_input"):
           for nk in (1, 2, 3):
             out.append(dict(kind="cdf", activation=act, reduction=red, sparsity=sp, dim=d,
